@@ -111,3 +111,47 @@ Proof.
       pose proof (is_derive_sqrt _ _ _ (IHe H) Hp') as P. simpl in P. rewrite eval_at in P.
       rewrite Q2R_2. exact P.
 Qed.
+
+(* ---------- C06: the Rush-Larsen step converges to the Euler step as dt -> 0 ---------- *)
+(* As a function of dt every slot starts at the state (dt = 0) and has slope f there: it agrees with the
+   Euler update x + dt*f to first order, i.e. the difference of the two steps is o(dt).  For the plain
+   (unguarded) formula this needs g <> 0, which is what the guard, or the "certainly non-zero" verdict
+   that replaces it, is there to ensure. *)
+Lemma rl_formula_first_order (x f g : R) :
+  g <> 0 -> is_derive (fun dt : R => x + f / g * (exp (g * dt) - 1)) 0 f.
+Proof.
+  intros Hg. auto_derive; [exact I|]. rewrite Rmult_0_r, exp_0. field. exact Hg.
+Qed.
+
+Lemma euler_formula_first_order (x f : R) : is_derive (fun dt : R => x + dt * f) 0 f.
+Proof. auto_derive; [exact I|]. ring. Qed.
+
+Theorem slot_first_order_is_euler (md : mode) (delta : Q) (x f g : R) :
+  (md = MPlain -> g <> 0) -> (0 <= Q2R delta) ->
+  slot_value ROps md delta x f g 0 = x
+  /\ is_derive (fun dt : R => slot_value ROps md delta x f g dt) 0 f.
+Proof.
+  intros Hp Hd. destruct md.
+  - (* Euler *) split; [unfold slot_value; simpl; ring|].
+    apply (is_derive_ext (fun dt : R => x + dt * f)); [intros t; reflexivity|apply euler_formula_first_order].
+  - (* guarded: the guard does not depend on dt *)
+    destruct (Rlt_dec (Q2R delta) (Rabs g)) as [Hlt|Hge].
+    + assert (Hg : g <> 0) by (intros ->; rewrite Rabs_R0 in Hlt; lra).
+      split.
+      * rewrite guarded_slot_value. destruct (Rlt_dec (Q2R delta) (Rabs g)); [|contradiction].
+        rewrite Rmult_0_r, exp_0, Q2R_1. field. exact Hg.
+      * apply (is_derive_ext (fun dt : R => x + f / g * (exp (g * dt) - 1))).
+        -- intros t. rewrite guarded_slot_value. destruct (Rlt_dec (Q2R delta) (Rabs g)); [|contradiction].
+           rewrite Q2R_1. reflexivity.
+        -- apply rl_formula_first_order. exact Hg.
+    + split.
+      * rewrite guarded_slot_value. destruct (Rlt_dec (Q2R delta) (Rabs g)); [contradiction|]. ring.
+      * apply (is_derive_ext (fun dt : R => x + dt * f)).
+        -- intros t. rewrite guarded_slot_value. destruct (Rlt_dec (Q2R delta) (Rabs g)); [contradiction|]. reflexivity.
+        -- apply euler_formula_first_order.
+  - (* plain *) specialize (Hp eq_refl). split.
+    + unfold slot_value, rl_value, one. simpl. rewrite Rmult_0_r, exp_0, Q2R_1. field. exact Hp.
+    + apply (is_derive_ext (fun dt : R => x + f / g * (exp (g * dt) - 1))).
+      * intros t. unfold slot_value, rl_value, one. simpl. rewrite Q2R_1. reflexivity.
+      * apply rl_formula_first_order. exact Hp.
+Qed.
